@@ -225,6 +225,7 @@ def judge(case):
         compare_globals(ref_ns, sb.data, viol, 'after run')
     # (4) calls
     nonscalar_call = False
+    options = {'zeta': 'from the options'}       # one dictionary object for all calls of this case
     for spec in case.get('calls', []):
         if viol or ref_exc is not None:
             break
@@ -240,6 +241,10 @@ def judge(case):
             continue
         if any(isinstance(a, (list, tuple, dict, set, frozenset, range)) for a in ref_args + list(ref_kwargs.values())):
             nonscalar_call = True
+        if spec.get('options'):
+            ref_kwargs = dict(ref_kwargs, zeta='from the options')
+            sb_kwargs = dict(sb_kwargs, function_kwargs=options)
+            classes.append('shared-function_kwargs')
         buf = io.StringIO()
         try:
             with contextlib.redirect_stdout(buf):
@@ -301,7 +306,13 @@ def call_cases(tier):
                      st.lists(CS1.call_spec(), min_size=1, max_size=4))
 
 
-STRATEGIES = {'programs': cases, 'calls': call_cases}
+def option_call_cases(tier):
+    """Several calls of the function that takes keyword arguments: the instructor's shared options dictionary meets direct keywords."""
+    return st.builds(lambda calls: {'code': CS1.PRELUDE + '\nready = True\n', 'inputs': [], 'calls': calls},
+                     st.lists(CS1.call_spec(only='pair'), min_size=2, max_size=4))
+
+
+STRATEGIES = {'programs': cases, 'calls': call_cases, 'optioncalls': option_call_cases}
 
 
 def subprocess_reference(tier, seed, shard, task, col):
@@ -345,6 +356,7 @@ CUSTOM = {'subprocess': subprocess_reference}
 
 def plan(tier):
     if tier == 'quick':
-        return [Task('hyp', 'programs', shards=12, examples=scale(250)), Task('hyp', 'calls', shards=4, examples=scale(400))]
-    return [Task('hyp', 'programs', shards=11, examples=scale(15000)), Task('hyp', 'calls', shards=4, examples=scale(15000)),
+        return [Task('hyp', 'programs', shards=12, examples=scale(250)), Task('hyp', 'calls', shards=3, examples=scale(400)),
+                Task('hyp', 'optioncalls', shards=1, examples=scale(200))]
+    return [Task('hyp', 'programs', shards=11, examples=scale(15000)), Task('hyp', 'calls', shards=3, examples=scale(15000)), Task('hyp', 'optioncalls', shards=1, examples=scale(5000)),
             Task('custom', 'subprocess', shards=1, examples=scale(600))]
